@@ -850,6 +850,18 @@ namespace
         static void           eval(In<"x", TS<Int>> x, Out<TS<Bool>> out) { out.set(x.value() != 0); }
     };
 
+    // a user-written selector that publishes its reference again on EVERY evaluation (also when a candidate ticks and the
+    // choice is unchanged): re-publishing an unchanged reference must not reach the consumers
+    struct VDURef
+    {
+        static constexpr auto name = "v_duref";
+        static void           eval(In<"pick", TS<Int>> pick, In<"lhs", DInt, InputValidity::Unchecked> lhs, In<"rhs", DInt, InputValidity::Unchecked> rhs,
+                                    Out<REF<DInt>> out)
+        {
+            out.set(pick.value() != 0 ? lhs.base().reference() : rhs.base().reference());
+        }
+    };
+
     // ---------- global state vocabulary (C07): state written by one run must never be visible to another ----------
     struct VGSet
     {
@@ -1283,7 +1295,7 @@ namespace
             const std::string kind = l.pos.at(2);
             NodeSpec         &sp   = spec_of(id);
             std::vector<P>    in;
-            if (kind != "drec" && kind != "dgrow" && kind != "tmap" && kind != "lsuml" && kind != "elem3" && kind != "skeys" && kind != "srec" && kind != "map" && kind != "reduce" && kind != "rrec" && kind != "mesh" && kind != "elem" && kind != "dite")
+            if (kind != "drec" && kind != "dgrow" && kind != "tmap" && kind != "lsuml" && kind != "elem3" && kind != "skeys" && kind != "srec" && kind != "map" && kind != "reduce" && kind != "rrec" && kind != "mesh" && kind != "elem" && kind != "dite" && kind != "duref")
             {
                 for (auto &r : sp.ins) { in.push_back(resolve(env, r)); }
             }
@@ -1497,6 +1509,11 @@ namespace
                 // in=<cond int>,<dict then>,<dict else>: a reference to the selected dictionary
                 auto cond = wire<VToBool>(w, resolve(env, sp.ins.at(0)));
                 env.dports.emplace(id, wire<stdlib::if_then_else>(w, cond, env.dports.at(std::stol(sp.ins.at(1))), env.dports.at(std::stol(sp.ins.at(2)))).as<DInt>());
+            }
+            else if (kind == "duref")
+            {
+                // as dite (in=<cond int>,<dict then>,<dict else>) through the user-written selector
+                env.dports.emplace(id, wire<VDURef>(w, resolve(env, sp.ins.at(0)), env.dports.at(std::stol(sp.ins.at(1))), env.dports.at(std::stol(sp.ins.at(2)))).as<DInt>());
             }
             else if (kind == "sched") { wire<VSched>(w, sid, in.at(0)); }
             else if (kind == "lsrc") { env.ports.emplace(id, wire<LSrc>(w, sid, Int{l.geti("cnt", 2)})); }
